@@ -156,6 +156,10 @@ func c18Body(tag string, n int) []byte {
 func (w *c18HWorld) TCP(addr string) (net.Conn, error) {
 	hysim.Yield("mock.TCP")
 	x := w.x
+	if d := x.Script.Get("dial_us", 0); d > 0 {
+		// the upstream dial takes time: other local connections are served meanwhile
+		time.Sleep(time.Duration(d) * time.Microsecond)
+	}
 	h := w.hosts[addr]
 	x.Ev("HyClient.TCP(%s) known=%v", addr, h != nil)
 	if h == nil {
@@ -551,6 +555,8 @@ func c18GenHTTP(r *hysim.Rand, tier string) *hysim.Script {
 	c18YieldCfg(r, sc, 100000)
 	sc.Cfg["auth"] = int64(r.Pick(1, 1, 1, 0))
 	sc.Cfg["logger"] = int64(r.Pick(0, 1))
+	sc.Cfg["dial_us"] = r.Pick64(0, 0, 300, 20000, 400000)
+	sc.Cfg["interfere"] = int64(r.Pick(0, 1))
 	nc := r.Range(1, 4)
 	if tier == "thorough" {
 		nc = r.Range(1, 10)
@@ -786,6 +792,25 @@ func (w *c18HWorld) one(s *Server, c *c18HConn) {
 		}
 	} else if _, err := c.cli.Write(c.stream[:sent]); err != nil {
 		x.Ev("client%d write -> %v", id, err)
+	}
+	if x.Script.Get("interfere", 0) == 1 {
+		// another local client is served while this connection's upstream dial may still be pending
+		// (it gets 407 / an error; only its effect on THIS connection matters)
+		bs, bc := simnet.NewStreamPair(x, simnet.StreamCfg{}, fmt.Sprintf("http-isrv%d", id), fmt.Sprintf("http-icli%d", id))
+		hysim.Go("harness:interfering-dispatch", func() { s.dispatch(bs) })
+		hysim.Go("harness:interfering-client", func() {
+			req := "GET http://interfere.invalid/" + strings.Repeat("i", 900) + " HTTP/1.1\r\nHost: interfere.invalid\r\nX-Fill: " + strings.Repeat("I", 900) + "\r\nConnection: close\r\n\r\n"
+			_, _ = bc.Write([]byte(req))
+			buf := make([]byte, 2048)
+			_ = bc.SetReadDeadline(time.Now().Add(5 * time.Second))
+			for {
+				if _, err := bc.Read(buf); err != nil {
+					break
+				}
+			}
+			_ = bc.Close()
+		})
+		x.Probe("interfering-connection")
 	}
 	aborted := false
 	tunnelUp := func() bool { return c.tun != nil && len(c.exp) > 0 && c.exp[len(c.exp)-1].tunnel }
